@@ -43,6 +43,15 @@ NormalsOK(m) ==
   /\ \A f \in 1..NF(m) : m.fdeg[f] = 0 => m.fnok[f] = 1
 OnSurface(m) == \A v \in 1..m.nv : m.vsurf[v] = 1
 
+\* A solid of unit radius with a very large segment count (e.big): judged on a summary - every index valid, the
+\* whole extent along the axis reached (the cylinder from -1 to 1, the sphere from pole to pole), every vertex
+\* at unit distance from the axis (sphere: at most; from the centre: exactly), unit normals.  Scale 1024.
+BigAllowed(e) ==
+  /\ e.panic = 0 /\ e.idxok = 1 /\ e.nbadn = 0
+  /\ e.nf >= 2 * e.segs /\ e.nv >= e.segs              \* (at least one strip of quads along the axis)
+  /\ e.ymin >= -1026 /\ e.ymin <= -1022 /\ e.ymax >= 1022 /\ e.ymax <= 1026
+  /\ e.rhi >= 1022 /\ e.rhi <= 1026 /\ (e.solid = "cylinder" => e.rlo >= 1022) /\ (e.solid = "sphere" => e.rlo >= 1022)
+
 \* e.closed = 1 for the solids the statement lists as watertight; e.euler their Euler characteristic
 Allowed(e) ==
   /\ e.panic = 0
